@@ -278,6 +278,28 @@ class NPProxy:
             return MATH.floor(a)
         return self._r.floor(a, **kw)
 
+    def ceil(self, a, **kw):
+        if isinstance(a, SymReal):
+            return a.__ceil__()
+        return self._r.ceil(a, **kw)
+
+    def trunc(self, a, **kw):
+        if isinstance(a, SymReal):
+            return a.__trunc__()
+        return self._r.trunc(a, **kw)
+
+    def rint(self, a, **kw):
+        if isinstance(a, SymReal):
+            return a.__round__()
+        return self._r.rint(a, **kw)
+
+    def round(self, a, decimals=0, **kw):  # noqa: A003
+        if isinstance(a, SymReal):
+            return a.__round__(decimals)
+        return self._r.round(a, decimals, **kw)
+
+    around = round
+
     def isclose(self, a, b, rtol=1e-05, atol=1e-08, **kw):
         if isinstance(a, SymReal) or isinstance(b, SymReal):
             return abs(a - b) <= atol + rtol * abs(b)
